@@ -94,6 +94,7 @@ def run(check, prog):
     canon = Canon()
     clause_A(check, prog)
     clause_A2(check, prog)
+    clause_A3(check, prog)
     clause_B(check, prog)
     clause_B2(check, prog, canon)
     clause_C(check, prog)
@@ -585,3 +586,78 @@ def clause_D(check, prog, canon):
     # mask is the non-evanescent region of the same radicand
     check.require(mask[1] == '>=' and canon.is_zero(mask[3]),
                   'D-mask-is-indicator', 'trans_func mask', 'mask = (root >= 0)', loc)
+
+
+def clause_A3(check, prog):
+    """ft_coords / ift_coords: each axis of the result is computed from its own
+    coordinate -- m from x and n from y (x from m, y from n on the way back) --
+    for every image, whatever its shape; every other coordinate is kept."""
+    for fname, conv, pairs in (('ft_coords', 'ft_coord', {'m': 'x', 'n': 'y'}),
+                               ('ift_coords', 'ift_coord', {'x': 'm', 'y': 'n'})):
+        q = FOURIER + '.' + fname
+        fd = prog.func(q)
+        loc = prog.loc(q, fd)
+        cs = sym(fd.args.args[0].arg)
+        it = Interp(prog, max_depth=1, opaque=[FOURIER + '.ft_coord', FOURIER + '.ift_coord'])
+        v = it.analyze(q).ret
+
+        def source_of(t):
+            """name of the input coordinate whose values `t` denotes, or None"""
+            # popped from (a layered copy of) {k: v.values for k, v in cs.items()}
+            if t[0] == 'call' and isinstance(t[1], tuple) and t[1][0] == 'attr' and \
+                    t[1][2] == 'pop' and len(t[2]) == 1 and t[2][0][0] == 'const':
+                base = t[1][1]
+                while base[0] in ('upd', 'mut'):
+                    if base[0] == 'upd' and base[2] == 'item' and base[3] == t[2][0]:
+                        return None            # overwritten before it was read
+                    base = base[1]
+                if _values_copy(base, cs):
+                    return t[2][0][1]
+            if t[0] == 'attr' and t[2] == 'values' and t[1][0] == 'idx' and \
+                    t[1][1] == cs and t[1][2][0] == 'const':
+                return t[1][2][1]
+            if t[0] == 'idx' and t[2][0] == 'const' and _values_copy_under(t[1], cs):
+                return t[2][1]
+            return None
+        stored, removed = {}, set()
+        t = v
+        ok = not any(x[0] == 'ite' for x in subterms(v))
+        while t[0] in ('upd', 'mut'):
+            if t[0] == 'upd' and t[2] == 'item' and t[3][0] == 'const':
+                stored.setdefault(t[3][1], t[4])
+            elif t[0] == 'mut' and t[2] == 'pop' and t[3] and t[3][0][0] == 'const':
+                if t[3][0][1] not in stored:
+                    removed.add(t[3][0][1])
+            elif t[0] == 'mut' and t[2] != 'pop':
+                ok = False
+            t = t[1]
+        ok = ok and _values_copy(t, cs) and set(stored) == set(pairs) and \
+            removed == set(pairs.values())
+        detail = 'returns %s' % show(v)[:200]
+        if ok:
+            for tgt, src in pairs.items():
+                val = stored[tgt]
+                good = val[0] == 'call' and val[1] == FOURIER + '.' + conv and \
+                    len(val[2]) == 1 and not val[3] and source_of(val[2][0]) == src
+                if not good:
+                    ok = False
+                    detail = "coordinate '%s' is computed as %s (expected %s of the " \
+                        "'%s' coordinate)" % (tgt, show(val)[:100], conv, src)
+        check.require(ok, 'A-axis-coordinates', fname,
+                      ', '.join('%s = %s(%s)' % (k, conv, s) for k, s in pairs.items()) +
+                      ' for every image; other coordinates kept', loc, fail_detail=detail)
+
+
+def _values_copy(t, cs):
+    """{k: v.values for k, v in cs.items()}"""
+    if t[0] != 'comp' or t[1] != 'dict' or len(t[3]) != 1 or t[3][0][2]:
+        return False
+    e, src = t[3][0][0], t[3][0][1]
+    return src == ('call', ('attr', cs, 'items'), (), ()) and \
+        t[2] == ('tuple', (('idx', e, num(0)), ('attr', ('idx', e, num(1)), 'values')))
+
+
+def _values_copy_under(t, cs):
+    while t[0] in ('upd', 'mut'):
+        t = t[1]
+    return _values_copy(t, cs)
